@@ -28,8 +28,17 @@ var (
 
 type file struct {
 	*fileData
-	offset int64
-	flag   int
+	offset     int64
+	flag       int
+	closedPath string // path of the file this handle referred to, kept for error reporting after Close
+}
+
+// closedErr returns the error for calling 'op' on a closed handle, nil if the handle is still open.
+func (f *file) closedErr(op string) error {
+	if f.fileData != nil {
+		return nil
+	}
+	return &hackpadfs.PathError{Op: op, Path: f.closedPath, Err: hackpadfs.ErrClosed}
 }
 
 type fileData struct {
@@ -170,9 +179,10 @@ func (f *fileData) info() hackpadfs.FileInfo {
 }
 
 func (f *file) Close() error {
-	if f.fileData == nil {
-		return hackpadfs.ErrClosed
+	if err := f.closedErr("close"); err != nil {
+		return err
 	}
+	f.closedPath = f.path
 	f.fileData = nil
 	return nil
 }
@@ -202,6 +212,9 @@ func (f *file) ReadAt(p []byte, off int64) (n int, err error) {
 }
 
 func (f *file) ReadBlobAt(length int, off int64) (b blob.Blob, n int, err error) {
+	if err := f.closedErr("readat"); err != nil {
+		return nil, 0, err
+	}
 	if off >= int64(f.Size()) {
 		return nil, 0, io.EOF
 	}
@@ -226,6 +239,9 @@ func (f *file) ReadBlobAt(length int, off int64) (b blob.Blob, n int, err error)
 }
 
 func (f *file) Seek(offset int64, whence int) (int64, error) {
+	if err := f.closedErr("seek"); err != nil {
+		return 0, err
+	}
 	newOffset := f.offset
 	switch whence {
 	case io.SeekStart:
@@ -264,6 +280,9 @@ func (f *file) WriteBlobAt(p blob.Blob, off int64) (n int, err error) {
 }
 
 func (f *file) writeBlobAt(op string, p blob.Blob, off int64) (n int, err error) {
+	if err := f.closedErr(op); err != nil {
+		return 0, err
+	}
 	if f.flag&hackpadfs.FlagAppend != 0 {
 		off = int64(f.Size())
 	}
@@ -295,10 +314,16 @@ func (f *file) writeBlobAt(op string, p blob.Blob, off int64) (n int, err error)
 }
 
 func (f *file) Stat() (hackpadfs.FileInfo, error) {
+	if err := f.closedErr("stat"); err != nil {
+		return nil, err
+	}
 	return fileInfo{Record: &f.runOnceFileRecord, Path: f.path}, nil
 }
 
 func (f *file) Truncate(size int64) error {
+	if err := f.closedErr("truncate"); err != nil {
+		return err
+	}
 	if f.Mode().IsDir() {
 		return &hackpadfs.PathError{Op: "truncate", Path: f.path, Err: hackpadfs.ErrIsDir}
 	}
@@ -332,6 +357,9 @@ func (f *file) Truncate(size int64) error {
 }
 
 func (f *file) ReadDir(n int) ([]hackpadfs.DirEntry, error) {
+	if err := f.closedErr("readdir"); err != nil {
+		return nil, err
+	}
 	dirNames, err := f.ReadDirNames()
 	if err != nil {
 		return nil, &hackpadfs.PathError{Op: "readdir", Path: f.path, Err: err}
@@ -386,6 +414,9 @@ func (d *dirEntry) Info() (hackpadfs.FileInfo, error) {
 }
 
 func (f *file) Chmod(mode hackpadfs.FileMode) error {
+	if err := f.closedErr("chmod"); err != nil {
+		return err
+	}
 	newMode := (f.Mode() & ^chmodBits) | (mode & chmodBits)
 	f.modeOverride = &newMode
 	return f.save()
